@@ -208,6 +208,44 @@ def _shift_promoted(rv, off):
         _shift_promoted_op(o, off)
 
 
+def apply_renames(doc, inventory):
+    """A private function of the inventory that is gone, and a new private function with the same receiver type and the same signature: a rename.
+    The new function takes the old name (in its body record and at every call site), so that rules keep finding their anchor.  Only unambiguous
+    one-to-one matches are taken; anything else is left to the fail-closed anchor check.  -> [(old qname, new qname)]"""
+    if inventory is None:
+        return []
+    present = {}
+    for b in doc['bodies']:
+        if b['kind'] != 'Closure':
+            present.setdefault(_qname_of_dict(b), []).append(b)
+    missing = [q for q in inventory if q not in present and not q.startswith('<')]
+    new = [b for b in doc['bodies'] if b['kind'] != 'Closure' and not b.get('is_pub') and _qname_of_dict(b) not in inventory]
+    if not missing or not new:
+        return []
+
+    def sig(b):
+        return (b.get('impl_self') and base_type(b['impl_self']), b['arg_count'], tuple(l['ty'] for l in b['locals'][:b['arg_count'] + 1]))
+    out = []
+    for q in missing:
+        owner = q.rsplit('::', 1)[0] if '::' in q else None
+        cands = [b for b in new if (base_type(b['impl_self']) if b.get('impl_self') else None) == owner]
+        # the old signature is unknown (the function is gone): accept only if the owner lost exactly one function and gained exactly one
+        lost_same_owner = [m for m in missing if (m.rsplit('::', 1)[0] if '::' in m else None) == owner]
+        if len(cands) == 1 and len(lost_same_owner) == 1:
+            b = cands[0]
+            old_name = q.rsplit('::', 1)[-1]
+            new_q = _qname_of_dict(b)
+            path = b['path']
+            for bb in doc['bodies']:
+                for blk in bb['blocks']:
+                    t = blk['term']
+                    if t['k'] == 'call' and (t['func'].get('def') == path or t['func'].get('resolved') == path):
+                        t['func'] = dict(t['func'], name=old_name)
+            b['name'] = old_name
+            out.append((q, new_q))
+    return out
+
+
 def apply_inlining(doc, inventory, depth=3):
     """Inline calls to crate-local, non-public functions that are not in the rule set's inventory (helpers extracted after the
     inventory was taken) into their callers, so that a helper extraction does not hide an anchored construct."""
@@ -550,6 +588,7 @@ class Facts:
         self.meta = doc['meta']
         from .desugar import apply_desugaring
         self.desugared = apply_desugaring(doc)
+        self.renamed = apply_renames(doc, _load_inventory())
         self.inlined = apply_inlining(doc, _load_inventory())
         self.helper_paths = {h for _, h in self.inlined} | {c for _, c in self.desugared}
         self.adts = {a['path']: a for a in doc['adts']}
